@@ -5,6 +5,7 @@
 import MW.Drv.Led
 import MW.Model.Iso
 import MW.Gen.Iso
+import MW.Drv.Race
 namespace MW.Drv.Iso
 open MW MW.Model.Ledger MW.Model.Iso
 
@@ -104,6 +105,7 @@ def step (st : St) (args : List String) : St × String :=
     if ps.any (fun p => p.toNat?.isNone) || ps.length > (blks.splitOn ";").length then (st, "bad-op")
     else sweep st (blks.splitOn ";") q "in"
   | ["abal", w, c] => let r := query st ["abal", w, c]; (st, r.1 ++ "\t" ++ r.2)
+  | ["racerun", s, n] => (st, (Race.step {} ["run", s, n]).2)     -- C17(b), see MW.Drv.Race
   | ["tx", _, _, _, outs] =>
     -- the harness refuses outputs to addresses that were never issued (strangers X* are created on demand)
     if (Led.parseList outs).any (fun o =>
